@@ -95,7 +95,8 @@ def sessionBusPath (ex : List Char → Bool) (env : Option (List Char)) : AddrRe
   | some a => parseAddr ex a
   | none => .errNoAddress
 
-def systemSocket : List Char := "/run/dbus/system_bus_socket".toList
+def systemSocket : List Char :=
+  ['/', 'r', 'u', 'n', '/', 'd', 'b', 'u', 's', '/', 's', 'y', 's', 't', 'e', 'm', '_', 'b', 'u', 's', '_', 's', 'o', 'c', 'k', 'e', 't']
 
 /-- `get_system_bus_path` -/
 def systemBusPath (ex : List Char → Bool) : AddrResult :=
@@ -218,7 +219,7 @@ structure St where
   reads : Nat := 0
   consumed : Nat := 0
   replies : List Reply := []          -- lines taken from the stream so far
-  deriving Repr
+  deriving Repr, DecidableEq
 
 /-- `read_message(stream, &mut Vec::new())` (both callers pass a fresh buffer) -/
 def readMessage (st : St) : St × Except Fail (List UInt8) :=
@@ -244,11 +245,18 @@ def send (wok : Nat → Bool) (st : St) (raw : List UInt8) : St × Bool :=
 def startsWith (pre s : List UInt8) : Bool := pre.isPrefixOf s
 
 def msgNul : List UInt8 := [0]
-def okBytes : List UInt8 := asciiBytes "OK".toList
-def agreeBytes : List UInt8 := asciiBytes "AGREE_UNIX_FD".toList
-def authLine (hex : List Char) : List UInt8 := asciiBytes "AUTH EXTERNAL ".toList ++ asciiBytes hex ++ crlf
-def negLine : List UInt8 := asciiBytes "NEGOTIATE_UNIX_FD".toList ++ crlf
-def beginLine : List UInt8 := asciiBytes "BEGIN".toList ++ crlf
+def okBytes : List UInt8 := asciiBytes ['O', 'K']
+def agreeBytes : List UInt8 :=
+  asciiBytes ['A', 'G', 'R', 'E', 'E', '_', 'U', 'N', 'I', 'X', '_', 'F', 'D']
+/-- "AUTH EXTERNAL " -/
+def authPrefix : List UInt8 :=
+  asciiBytes ['A', 'U', 'T', 'H', ' ', 'E', 'X', 'T', 'E', 'R', 'N', 'A', 'L', ' ']
+def authLine (hex : List Char) : List UInt8 := authPrefix ++ asciiBytes hex ++ crlf
+/-- "NEGOTIATE_UNIX_FD\r\n" -/
+def negLine : List UInt8 :=
+  asciiBytes ['N', 'E', 'G', 'O', 'T', 'I', 'A', 'T', 'E', '_', 'U', 'N', 'I', 'X', '_', 'F', 'D'] ++ crlf
+/-- "BEGIN\r\n" -/
+def beginLine : List UInt8 := asciiBytes ['B', 'E', 'G', 'I', 'N'] ++ crlf
 
 /-- `io::Result<AuthResult>` -/
 inductive StepRes
